@@ -110,6 +110,12 @@ pub fn scn_entrypoints(o: &Opts, tr: &mut Tr, prop: &str) {
             slice_iter(tr, &s.z, s.zlib, false, 0, n);
             slice_iter(tr, &s.z, s.zlib, false, 1 + r.gen_range(0..7), n + 1);
             slice_iter(tr, &s.z, s.zlib, true, 1 + r.gen_range(0..50), n + 1 + r.gen_range(0..10));
+            if s.zlib && s.z.len() > 6 {
+                // exact-size output, the cut falls inside the 4-byte trailer: only input is missing
+                for back in 1..=4usize {
+                    slice_iter_cut(tr, &s.z, true, s.z.len() - back, n);
+                }
+            }
         } else {
             vec_fns(tr, &s.z, s.zlib, &[-1]);
         }
@@ -336,7 +342,7 @@ pub fn scn_total(o: &Opts, tr: &mut Tr, prop: &str) {
     use miniz_oxide::inflate::core::DecompressorOxide;
     let mut r = gen::rng(o.seed, 505);
     let srcs = sources(o, &mut r, false);
-    let geoms = [0usize, 1, 2, 3, 5, 100, 128, 4096, 32768, 40000, 1000];
+    let geoms = [0usize, 1, 2, 3, 5, 100, 128, 257, 258, 259, 260, 517, 4096, 32768, 40000, 1000];
     let ncases = if o.thorough { 1500 } else { 300 };
     for ci in 0..ncases {
         tr.case(&format!("tot-{}", ci), prop, json!({}));
@@ -358,7 +364,7 @@ pub fn scn_total(o: &Opts, tr: &mut Tr, prop: &str) {
             let flags: u32 = if vary { r.gen_range(0..256) } else { fixed_flags ^ (if r.gen_range(0..4) == 0 { 2 } else { 0 }) };
             let glen = geoms[r.gen_range(0..geoms.len())];
             let out_pos = match r.gen_range(0..6) { 0 => 0, 1 => glen, 2 => glen + 1, 3 => out_total.min(glen), _ => r.gen_range(0..=glen) };
-            let out_max = match r.gen_range(0..4) { 0 => r.gen_range(0..300), _ => usize::MAX };
+            let out_max = match r.gen_range(0..6) { 0 => r.gen_range(0..300), 1 => [257usize, 258, 259, 260][r.gen_range(0..4)], _ => usize::MAX };
             let take = match r.gen_range(0..5) { 0 => 0, 1 => 1, 2 => r.gen_range(0..20), _ => src.len() - pos }.min(src.len() - pos);
             let mut out = vec![0x3Cu8; glen];
             for (i, b) in out.iter_mut().enumerate() { *b = (i as u8) ^ 0x5a; }
@@ -459,6 +465,63 @@ pub fn scn_inflate_protocol(o: &Opts, tr: &mut Tr, prop: &str) {
                 drive_inflate(tr, 11, &z, fmt, &gen::chunks("fixed1", z.len(), &mut r), &[1], false, &mut r);
             }
             drive_inflate(tr, 12, &z, fmt, &[z.len()], &[s.p.len() + 64], true, &mut r);
+        }
+    }
+}
+
+/// C03 / C04: streams generated by TLC from spec/DeflateGen.tla (one JSON record per line:
+/// z, p, zlib, expect, why, feats), replayed through every decoder entry point.
+pub fn scn_genstreams(o: &Opts, tr: &mut Tr, prop: &str) {
+    let mut r = gen::rng(o.seed, 333);
+    let path = match &o.input {
+        Some(p) => p.clone(),
+        None => return,
+    };
+    let text = std::fs::read_to_string(&path).unwrap_or_default();
+    for (i, line) in text.lines().enumerate() {
+        let v: serde_json::Value = match serde_json::from_str(line) {
+            Ok(v) => v,
+            Err(_) => continue,
+        };
+        let get = |k: &str| -> Vec<u8> { v[k].as_array().map(|a| a.iter().map(|x| x.as_u64().unwrap_or(0) as u8).collect()).unwrap_or_default() };
+        let z = get("z");
+        let p = get("p");
+        let zlib = v["zlib"].as_bool().unwrap_or(false);
+        let expect = v["expect"].as_str().unwrap_or("done").to_string();
+        let why = v["why"].as_str().unwrap_or("").to_string();
+        let valid = expect == "done";
+        if (prop == "C03") != valid {
+            continue;
+        }
+        let feats: Vec<String> = v["feats"].as_array().map(|a| a.iter().filter_map(|x| x.as_str().map(|s| s.to_string())).collect()).unwrap_or_default();
+        tr.case(&format!("gen-{}-{}", i, if valid { "valid".to_string() } else { why.clone() }), prop,
+                json!({"zlen": z.len(), "plen": p.len(), "feats": feats}));
+        tr.ev(stream_event(&z, Some(&p), zlib, json!({})));
+        tr.ev(json!({"ev": "gen_expect", "expect": expect, "why": why}));
+        let bf = base_flags(zlib);
+        let n = p.len();
+        let big = n > 5000;
+        let osz = if valid { n } else { n + 70000 };
+        drive_flat(tr, 1, &z, bf, &[z.len()], &Budget::Unlimited, osz, false, valid, &mut r);
+        drive_flat(tr, 2, &z, bf, &gen::chunks("fixed1", z.len(), &mut r), &Budget::Unlimited, osz + 1, false, valid, &mut r);
+        drive_flat(tr, 3, &z, bf, &gen::chunks("rand", z.len(), &mut r), &Budget::Random(vec![1, 2, 3, 258, 259, usize::MAX]), osz + 1, false, valid, &mut r);
+        tr.ev(json!({"ev": "equiv", "a": 1, "b": 2}));
+        tr.ev(json!({"ev": "equiv", "a": 1, "b": 3}));
+        drive_ring(tr, 4, &z, bf, &gen::chunks("rand", z.len(), &mut r), &Budget::Unlimited, 32768, valid, &mut r);
+        drive_ring(tr, 5, &z, bf, &gen::chunks("fixed1", z.len(), &mut r), &Budget::Random(vec![1, 5, 259, usize::MAX]), 32768, valid, &mut r);
+        tr.ev(json!({"ev": "equiv", "a": 4, "b": 5}));
+        if !big {
+            vec_fns(tr, &z, zlib, &[-1, n as i64]);
+            slice_iter(tr, &z, zlib, false, 0, osz);
+            slice_iter(tr, &z, zlib, false, 1 + r.gen_range(0..5), osz + 1);
+        } else {
+            vec_fns(tr, &z, zlib, &[-1]);
+        }
+        let fmt = if zlib { DataFormat::Zlib } else { DataFormat::Raw };
+        drive_inflate(tr, 1, &z, fmt, &gen::chunks("rand", z.len(), &mut r), &[1, 7, 300, 70000], false, &mut r);
+        drive_inflate(tr, 2, &z, fmt, &[z.len()], &[n + 70000], true, &mut r);
+        if !big {
+            drive_inflate(tr, 3, &z, fmt, &gen::chunks("fixed1", z.len(), &mut r), &[1, 2], false, &mut r);
         }
     }
 }
